@@ -44,6 +44,15 @@ REG = {
  "C17": dict(cat="exploration", technique="runtime monitoring: extent oracle by construction vs foldingRange; well-formedness monitor on hostile documents",
    text="foldingRange of generated valid programs (doc comments, several procedures per line, CRLF, all layouts) must be exactly one range per procedure in source order from the line of `proc` to the line of its last token; on hostile documents every range must satisfy start <= end, lie inside the document and not overlap its predecessor.",
    note="Trusted: extents from the generator and the LSP line model.", ref="5/C17"),
+ "C09": dict(cat="exploration", technique="runtime monitoring: independent edit applier + reference lexer + diagnostics of fresh twins over textDocument/formatting",
+   text="Syntactically valid generated programs (well- and ill-typed, all layouts, CRLF, literal corner cases such as 007, 0x0a, triple quote, escaped newline, 2^32-1 and overflowing literals) are formatted under random options (spaces with tabSize 0..8, tabs); the monitor demands one edit covering exactly the whole document (or null), an identical sequence of non-comment tokens with kinds and literal values after applying it with an independent edit applier and re-lexing with the reference lexer, and identical diagnostics (message, culprit token) for the original and the formatted text opened fresh.",
+   note="Trusted: harness/reflex.py, harness/lspmodel.py. Comments only in positions the formatter keeps (C10 covers comments).", ref="5/C09"),
+ "C10": dict(cat="exploration", technique="runtime monitoring: unique-comment tracing through textDocument/formatting, exhaustive over grammar gap classes; input-class keyed known findings",
+   text="Every comment body in a document is unique, so the monitor attributes each lost, duplicated, altered or reordered comment to the gap it was written in. Gap classes (comment-carrying construct, slot, context) are enumerated: for each generated program one single-comment run per class that occurs in it, plus programs with 1-10 comments in random gaps and after the last token. 34 losing classes are known findings K-C10-1..5 (committed witnesses, replayed first); in all other (about 75) classes the comment must survive exactly once, in order, with its text.",
+   note="A known class only excuses the loss of the comment written in that gap; duplicates, text changes, reordering and losses elsewhere are violations.", ref="5/C10"),
+ "C11": dict(cat="exploration", technique="runtime monitoring: metamorphic twins (second formatting pass, alternative layouts) + indentation-depth oracle from the derivation",
+   text="Each generated program is rendered in three layouts (random/spaced, compact, one token per line; LF/CRLF) and formatted under one random option set: all three results must be identical, formatting the result again must answer null, every line must be indented with exactly unit^depth where depth is the nesting depth of the line's first token in the derivation, and null must be answered exactly when the text is already canonical.",
+   note="Trusted: depth assignment in harness/fmt.py (braced bodies +1, unbraced branches +1, parameters broken onto lines +1).", ref="5/C11"),
 }
 NOT_YET = "check not yet built in this session (work in progress; see DESIGN.md section 5 for the planned monitor)"
 
